@@ -383,7 +383,50 @@ func ruleE1(c *Ctx) {
 					}
 				}
 			})
-			// the S (string cell) path is typed by the Text test instead
+			// ... and on every path: each comparison is reached either past that test's "same type" edge or with the
+			// cell known not to be a literal (the string-cell path is typed by the Text test instead)
+			if typed {
+				isTypeTest := func(v ssa.Value) (*ssa.BinOp, bool) {
+					bo, ok := v.(*ssa.BinOp)
+					if !ok || (bo.Op != token.NEQ && bo.Op != token.EQL) {
+						return nil, false
+					}
+					tx, ty := c.term(bo.X), c.term(bo.Y)
+					return bo, strings.HasPrefix(tx, "(*literal.Literal).Type(") && strings.HasPrefix(ty, "(*literal.Literal).Type(") && tx != ty
+				}
+				edge := func(st bool, b *ssa.BasicBlock, si int) (bool, bool) {
+					iff, ok := b.Instrs[len(b.Instrs)-1].(*ssa.If)
+					if !ok {
+						return st, true
+					}
+					if bo, ok := isTypeTest(iff.Cond); ok {
+						sameEdge := 1
+						if bo.Op == token.EQL {
+							sameEdge = 0
+						}
+						if si == sameEdge {
+							return true, true
+						}
+						return st, true
+					}
+					if bo, ok := iff.Cond.(*ssa.BinOp); ok && (bo.Op == token.NEQ || bo.Op == token.EQL) && isNilConst(bo.Y) && strings.HasSuffix(c.term(bo.X), ".L") {
+						nilEdge := 1
+						if bo.Op == token.EQL {
+							nilEdge = 0
+						}
+						if si == nilEdge {
+							return true, true
+						}
+					}
+					return st, true
+				}
+				_, at := flow(c, fn, false, func(st bool, _ ssa.Instruction) bool { return st }, edge)
+				for _, sk := range sinks {
+					if at(sk)[false] {
+						typed = false
+					}
+				}
+			}
 			c.check(typed, "(*semantic.comparisonForLiteral).Evaluate compares literals of the same type only", fn.Pos(), "a direct test cell.L.Type() != constant.Type() returns false", "the literal comparison is reachable without the two literal types having been compared for equality (directly): an int64 is compared with a float64 (or any other mixed pair) through their padded renderings, so the condition can hold for values of different kinds")
 		}
 		c.check(okAll, key, fn.Pos(), fmt.Sprintf("%d comparison(s), each reached only after the cell's %v field was tested", len(sinks), want[tn]), fmt.Sprintf("a comparison in %s.Evaluate is reachable without testing that the cell carries a %v value: a binding of another kind is compared by its rendering and may satisfy the condition", tn, want[tn]))
